@@ -219,6 +219,7 @@ func (r *replicator) Load(ctx context.Context, entries []ipfslog.Entry) {
 			wg.Done()
 		}(item)
 	}
+	verifhook.At("replicator.load.queued", r, ctx, entries)
 	r.muProcess.Unlock()
 
 	wg.Wait()
@@ -235,7 +236,7 @@ func (r *replicator) processOne(ctx context.Context, wg *sync.WaitGroup, e proce
 		r.logger.Warn("process item ended", zap.Error(err))
 
 		// the entry was not fetched: forget it so that it can be requested again
-		verifhook.At("replicator.before.done", r, e.GetHash())
+		verifhook.At("replicator.before.failed", r, e.GetHash())
 		r.processEntryFailed(e)
 		return nil
 	}
@@ -376,6 +377,7 @@ func (r *replicator) waitForProcessSlot(ctx context.Context, e processItem) erro
 		if r.isIdle() {
 			r.idle()
 		}
+		verifhook.At("replicator.slot.failed", r, e.GetHash())
 		r.muProcess.Unlock()
 
 		return fmt.Errorf("failed to acquire process slot: %w", err)
